@@ -2,7 +2,9 @@
 entries of the id list (NC_REQ_NULL entries are skipped, as documented), whatever shortcut the function takes.
 The selection part of the function (up to the first allocation of the extracted lists) is evaluated by the analyser on
 small queues and id lists and compared with that specification.  Bounded: up to 3 pending puts and 2 pending gets,
-id lists of up to 3 entries drawn from the pending ids and NC_REQ_NULL."""
+id lists of up to 3 entries drawn from the pending ids and NC_REQ_NULL, in every order.  With a status array, each
+selected request's `status` pointer must be the slot of the list entry that names it (the queue is sorted by file offset,
+not by the order of the ids)."""
 import itertools
 import concrete
 from facts import walk, strip, canon, const_value
@@ -19,6 +21,7 @@ def check(ctx, fn, rule, to_free_bit, req_null):
             stop.add(b.id)
     n = 0
     bad = None
+    bad_status = None
     for nput in range(0, 4):
         for nget in range(0, 3):
             put_ids = [2 * (k + 1) for k in range(nput)]
@@ -57,6 +60,16 @@ def check(ctx, fn, rule, to_free_bit, req_null):
                         marked |= {x for k, x in enumerate(get_ids) if env.get("ncp->get_lead_list[%d].flag" % k, 0) & to_free_bit}
                         if marked != set(real) and bad is None:
                             bad = (put_ids, get_ids, ids, sorted(marked))
+                        if with_status and marked == set(real) and bad_status is None:
+                            # each selected request reports into the slot of the list entry that names it
+                            for lst, pre in ((put_ids, "ncp->put_lead_list"), (get_ids, "ncp->get_lead_list")):
+                                for k, x in enumerate(lst):
+                                    if x not in real:
+                                        continue
+                                    sp = env.get("%s[%d].status" % (pre, k))
+                                    want = ("P", "statuses", list(ids).index(x))
+                                    if sp != want:
+                                        bad_status = (put_ids, get_ids, ids, x, sp[2] if isinstance(sp, tuple) else sp, want[2])
     inst = "%s:selection" % fn.name
     if bad:
         put_ids, get_ids, ids, marked = bad
@@ -66,4 +79,13 @@ def check(ctx, fn, rule, to_free_bit, req_null):
                  (put_ids, get_ids, show_ids, marked), fn=fn, line=fn.line, inst=inst)
     else:
         ctx.ok(rule, inst, "%d (queue, id list) cells: exactly the named requests are selected" % n)
+    inst = "%s:status" % fn.name
+    if bad_status:
+        put_ids, get_ids, ids, x, got, want = bad_status
+        show_ids = ["NC_REQ_NULL" if y == req_null else y for y in ids]
+        ctx.fail(rule, fn.name, "status", "pending put ids %s, get ids %s (in queue order), waiting for %s with a status array: request %s "
+                 "reports into statuses[%s], its id is listed at position %s - requests report each other's status" %
+                 (put_ids, get_ids, show_ids, x, got, want), fn=fn, line=fn.line, inst=inst)
+    elif bad is None:
+        ctx.ok(rule, inst, "every selected request reports into the slot of the list entry that names it")
     return n
